@@ -83,4 +83,14 @@ KF_C03_CommaBound(ref, out) ==
 \* length (base.go serialize Column): the column referenced is the 63-byte prefix of the field name.
 KF_C02_LongName(fields, cols) ==
   \A col \in cols \ fields : \E f \in fields : Len(f) > 63 /\ col = SubSeq(f, 1, 63)
+
+\* ---- C04-mixed-kind-range -------------------------------------------------------------------------------
+\* An exclusive range whose lower bound is a number and whose upper bound is a string: rang() (inline) falls
+\* through to the string case and renders an inclusive BETWEEN, rangParam() looks at the kind of the FIRST
+\* parameter only and renders exclusive numeric comparisons.  Signature on the two ASTs and the parameters.
+KF_C04_MixedKindRange(inl, par, params) ==
+  /\ inl.k = "between" /\ inl.lo.k = "const" /\ inl.lo.ty # "str" /\ inl.hi.k = "const" /\ inl.hi.ty = "str"
+  /\ par.k = "bool" /\ par.op = "AND" /\ Len(par.args) = 2 /\ par.args[1].k = "cmp" /\ par.args[1].op = ">"
+  /\ par.args[2].k = "cmp" /\ par.args[2].op = "<"
+  /\ Len(params) = 2 /\ params[1].ty # "str" /\ params[2].ty = "str"
 ========================================================================
